@@ -23,7 +23,7 @@ CHECKS = {
          'Sticky EOF of the real transports is validated in C06; diagnostic-message states are exercised on real spawn classes.', '4/C04'),
  'C13': ('Theorems C13.* over the transition table that T-split regenerates from utils.split_command_line on every run (split_roundtrip: any '
          'non-empty args, 3 quoting styles, any whitespace incl. leading/trailing; argv_tail_roundtrip; which_* over an abstract file system). Tie: '
-         'translator + table interpreter vs real function (exhaustive short strings + random), which() on generated PATH layouts vs the model, '
+         'translator + table interpreter vs real function (exhaustive short strings + random), which() on generated PATH layouts vs the model (each layout asked again while its directories change), '
          'probe-child launches for argv/cwd/env/winsize/echo/SIGHUP.',
          'ptyprocess.PtyProcess.spawn, subprocess.Popen and shlex.split are trusted to pass settings through (validated by the probe child).', '4/C13'),
  'C18': ('Theorems C18.* over the FSM table and the per-action stack effects that T-ansi regenerates from the live ANSI object and the action '
@@ -62,7 +62,8 @@ CHECKS = {
          'reports byte for byte what it received.',
          'A blocking write accepts the whole buffer when the peer reads.', '4/C08'),
  'C11': ('Theorems C11.*: logs_are_transcript (logfile = reads and sends in operation order, logfile_read / logfile_send the two projections), '
-         'logfile_read_eq_delivered, every_write_flushed. Tie: recording log objects on all transports and log combinations, types checked; interact() sessions.',
+         'logfile_read_eq_delivered, every_write_flushed. Tie: recording log objects (plain, and looking like an interactive text stream) on all transports and log combinations, types checked; interact() sessions; '
+         'descriptors that refuse or shorten a write (each request logged once).',
          'Log objects are only observed through write() and flush().', '4/C11'),
  'C09': ('Theorems C09.* over the life-cycle model (kernel signal/wait world + ptyprocess + spawn objects): reachable_inv (induction over every op sequence), '
          'status_truth, exactly_one_status, status_stable, wait_returns_code, popen_wait_maps_negative. Tie: real pty children for exit codes and '
@@ -78,7 +79,7 @@ CHECKS = {
          'each_occurrence_answered_once_in_order (run_trace: the calls are one expect history; log and sends = logOf of the reported indices), '
          'logOf_indices, logOf_dispatch, dispatch_spec, list_events_keep_priority, run_stop_reason, chain_is_history (C01/C03 apply to run\'s calls), '
          'run_exitstatus (over the life-cycle model). Tie: the real run() on a scripted spawn (same event tables / callback tables / streams through the '
-         'Lean model) + real pty children whose recorded reads are replayed through the model; direct oracles on output, responses, naive re-search, exit status.',
+         'Lean model) + real pty children whose recorded reads are replayed through the model; direct oracles on output, responses, naive re-search, exit status, stop reason (EOF / timeout / callback returning true only).',
          'Callbacks are an arbitrary oracle indexed by (callback, event_count); a diverging run is judged on every finite prefix (fuel). '
          'Children are open-loop event streams: every theorem quantifies over all of them, which covers reactive children.', '4/C12'),
  'C17': ('Theorems C17.* about Px.login, the interpreter of the decision table that T-pxssh regenerates from pxssh.py (login / set_unique_prompt / prompt ASTs) on every run, '
@@ -103,7 +104,7 @@ CHECKS = {
          '(multi-line commands), incomplete_raises_and_resyncs, command_sequence (every sequence of complete and incomplete commands: each call returns exactly its own '
          'output and the wrapper stays synchronised; sizes, lengths and chunkings unbounded), async_same_value, cleanB_sound. Tie: the real REPLWrapper on a scripted '
          'spawn with the same event streams through the Lean model (clean / dirty segments classified by the model, the theorem\'s conclusion checked on the clean ones); '
-         'real bash, python and a fake REPL process, blocking and awaited, commands of known output up to 300 000 characters.',
+         'real bash, python and a fake REPL process, blocking and awaited, commands of known output up to 300 000 characters, output that repeats the command, blanks inside quoted lines.',
          'Hypothesis Seg.Clean (the REPL obeys the protocol: neither prompt string is completed before the end of an answer) is explicit and decidable; a command that prints the '
          'prompt string is outside the theorem. SIGINT delivery and the REPL\'s reaction to it are part of the environment.', '4/C16'),
  'C15': ('Theorems C15.* over the copy-loop model of spawn.interact() (a function of the reads the loop performs; filters and escape setting as parameters): '
@@ -111,7 +112,7 @@ CHECKS = {
          'input_filter up to the first escape; nothing after it, also within the same read), interact_input_no_escape, interact_logs_sends, mode_restored, raw_while_copying, '
          'returns_on_child_exit. Tie: real interact() sessions — an outer pty plays the user, a raw-mode inner child reports what it read and wrote, every os.read / os.write of the '
          'loop is recorded and the recorded reads are replayed through the Lean model; end-to-end oracles on display, child input, terminal attributes, pending text, log files; '
-         'the child-exit race is forced (liveness tests happen after the child has gone).',
+         'the child-exit race is forced (liveness tests happen after the child has gone); children that exited before interact() was called.',
          'The model describes the repaired code (three fix: commits). Each read returns at most 1000 bytes in the code; the theorems hold for any sizes. Terminal mode is one abstract value '
          '(tcgetattr equality is checked on the real terminal).', '4/C15'),
 }
